@@ -28,13 +28,27 @@ TCfg == /\ l <= Len(Trace) /\ Trace[l].ev = "Cfg"
                                    ideal |-> IdealFor(CaseOf(c))])
         /\ l' = l + 1
 
+(* cross-setting clause: line [ev |-> "Pair", comp, srcs, norm, obs, ref]: the harness executed the   *)
+(* configuration srcs and the reference configuration norm and logged every observable of the         *)
+(* processor for both.  The specification re-derives the reference (a different one is harness drift) *)
+(* and demands equal observations.                                                                      *)
+TPair == /\ l <= Len(Trace) /\ Trace[l].ev = "Pair"
+         /\ LET r == Trace[l]
+                n == NormalizeCross(r.srcs)
+                same == \A i \in 1..4 : r.norm[i] = n[i]
+            IN /\ (~same => Viol([line |-> l, kind |-> "drift", comp |-> r.comp, srcs |-> r.srcs, norm |-> r.norm, want |-> n]))
+               /\ (same /\ r.obs # r.ref =>
+                     Viol([line |-> l, kind |-> "cross", comp |-> r.comp, srcs |-> r.srcs, norm |-> r.norm,
+                           obs |-> r.obs, ref |-> r.ref]))
+         /\ l' = l + 1
+
 TDone == l = Len(Trace) + 1 /\ Accepted(l) /\ UNCHANGED vars
 
-Next == TCfg \/ TDone
+Next == TCfg \/ TPair \/ TDone
 Spec == Init /\ [][Next]_vars
 
 (* model-side sanity at every recorded case: some outcome is admissible, the ideal one is *)
-Inv == l <= Len(Trace) =>
+Inv == l <= Len(Trace) /\ Trace[l].ev = "Cfg" =>
          \A i \in 1..Len(Trace[l].cases) :
             LET c == CaseOf(Trace[l].cases[i]) IN AllowedFor(c) # {} /\ IdealFor(c) \subseteq AllowedFor(c)
 =============================================================================
